@@ -69,7 +69,16 @@ fn main() {
             let mut cases: Vec<Case> = vec![];
             if let Some(dir) = args.get(6) {
                 if let Ok(rd) = std::fs::read_dir(dir) {
-                    let mut files: Vec<_> = rd.flatten().map(|e| e.path()).collect();
+                    let mut files: Vec<std::path::PathBuf> = vec![];
+                    for e in rd.flatten() {
+                        if e.path().is_dir() {
+                            if let Ok(rd2) = std::fs::read_dir(e.path()) {
+                                files.extend(rd2.flatten().map(|e| e.path()));
+                            }
+                        } else {
+                            files.push(e.path());
+                        }
+                    }
                     files.sort();
                     for f in files {
                         if let Ok(txt) = std::fs::read_to_string(&f) {
